@@ -54,7 +54,7 @@ func runC03(c *RunCtx) {
 }
 
 func runC05(c *RunCtx) {
-	richPrograms(c, "rich", 48, 240, richBias{MaxJobs: 6, Cancel: 30, Purge: 20, Script: 2, Batches: 30, Waiters: 3, Outcomes: true, Expiry: 10},
+	richPrograms(c, "rich", 96, 400, richBias{MaxJobs: 6, Cancel: 30, Purge: 20, Script: 2, Batches: 30, Waiters: 3, Outcomes: true, Expiry: 10},
 		ExploreOpts{Base: 3, K: c.Q(2, 4), Funcs: anchoredOr(c, append([]string{"Wait", "Response", "Send", "Drain", "WgCounter"}, dispatchFuncs...)), Pairs: c.Q(20, 120), MaxCases: c.Q(200, 4000)})
 	batchPrograms(c, 96, 600)
 }
@@ -70,7 +70,7 @@ func batchPrograms(c *RunCtx, nq, nt int) {
 }
 
 func runC09(c *RunCtx) {
-	richPrograms(c, "rich", 48, 240, richBias{MaxJobs: 8, Cancel: 5, Purge: 0, Script: 6, Batches: 10, Waiters: 0, Expiry: 10, PausesOnly: true},
+	richPrograms(c, "rich", 96, 400, richBias{MaxJobs: 8, Cancel: 5, Purge: 0, Script: 6, Batches: 10, Waiters: 0, Expiry: 10, PausesOnly: true},
 		ExploreOpts{Base: 3, K: c.Q(2, 4), Funcs: anchoredOr(c, dispatchFuncs), Pairs: c.Q(20, 120), MaxCases: c.Q(200, 4000)})
 	runC09Extra(c)
 }
@@ -78,12 +78,12 @@ func runC09(c *RunCtx) {
 func runC09Extra(c *RunCtx) { notifyPrograms(c, 40, 200) }
 
 func runC10(c *RunCtx) {
-	richPrograms(c, "rich", 48, 240, richBias{MaxJobs: 8, Cancel: 60, Purge: 40, Script: 2, Batches: 20, Waiters: 1, Expiry: 10},
+	richPrograms(c, "rich", 96, 400, richBias{MaxJobs: 8, Cancel: 60, Purge: 40, Script: 2, Batches: 20, Waiters: 1, Expiry: 10},
 		ExploreOpts{Base: 3, K: c.Q(2, 4), Funcs: anchoredOr(c, dispatchFuncs), Pairs: c.Q(20, 120), MaxCases: c.Q(200, 4000)})
 }
 
 func runC16(c *RunCtx) {
-	richPrograms(c, "rich", 48, 240, richBias{MaxJobs: 6, Cancel: 25, Purge: 10, Script: 2, Batches: 0, Waiters: 3, Samplers: true, Expiry: 10},
+	richPrograms(c, "rich", 96, 400, richBias{MaxJobs: 6, Cancel: 25, Purge: 10, Script: 2, Batches: 0, Waiters: 3, Samplers: true, Expiry: 10},
 		ExploreOpts{Base: 3, K: c.Q(2, 4), Funcs: anchoredOr(c, dispatchFuncs), Pairs: c.Q(20, 120), MaxCases: c.Q(200, 4000)})
 }
 
